@@ -1,14 +1,14 @@
 package props
 
 import (
-	"strconv"
-	"regexp"
 	"fmt"
 	"go/ast"
 	"go/constant"
 	"go/token"
 	"go/types"
+	"regexp"
 	"sort"
+	"strconv"
 	"strings"
 	"unicode"
 
